@@ -56,6 +56,17 @@ def spawn(x):
 PYFUNCS['spawn'] = spawn
 
 
+def fail3(x):
+    """a stage function that fails on one element (3) and is fine with the others: a consumer that
+    catches the error and goes on pulling must get the rest of the stream"""
+    if x == 3:
+        raise ValueError('three')
+    return x
+
+
+PYFUNCS['fail3'] = fail3
+
+
 def base_iter(source, sub, sentinel):
     f = PYFUNCS[sub] if sub else None
     for t in source:
